@@ -586,6 +586,13 @@ def run(ctx, rep):
 
 
 def replay(ctx, rep, case):
+    """Re-run one stored case.  Violations that are open known findings are printed, not counted."""
+    tmp = type(rep)()
+    _replay(ctx, tmp, case)
+    bc.transfer_new_violations(ID, tmp, rep)
+
+
+def _replay(ctx, rep, case):
     if case.get('kind') == 'mixin':
         old, new, family = spans_of(case)
         obj = build(old, True, False, cls=pandas_model_class())
